@@ -231,7 +231,10 @@ impl MemReader {
         let mut chunks = dst.chunks_exact_mut(std::mem::size_of::<usize>());
 
         for chunk in chunks.by_ref() {
-            let word = nix::sys::ptrace::read(pid, (src + offset) as *mut std::ffi::c_void)
+            let addr = src
+                .checked_add(offset)
+                .ok_or((nix::Error::EFAULT, offset))?;
+            let word = nix::sys::ptrace::read(pid, addr as *mut std::ffi::c_void)
                 .map_err(|err| (err, offset))?;
             chunk.copy_from_slice(&word.to_ne_bytes());
             offset += std::mem::size_of::<usize>();
